@@ -85,7 +85,9 @@ func (rf *ReportFeed) Status() []byte {
 	// displayed as non-RTCM messages.)
 	messageDisplay := "\nMessages\n\n"
 	for _, message := range rf.RecentMessages.GetMessages() {
-		messageDisplay += message.String() + "\n"
+		// The display of a message contains a dump of its raw data,
+		// which came from the network, so it must be sanitised.
+		messageDisplay += Sanitise(message.String()) + "\n"
 	}
 
 	reportBody := fmt.Sprintf(reportFormat,
